@@ -216,3 +216,11 @@ Example ex_all_terminal : all_terminal swap_is_finished_table [SwState "State_Cl
 Proof.
   intros r [<-|[<-|[]]]; eexists; split; reflexivity.
 Qed.
+(* a history: fresh install by v0.2, a swap starts, a v0.3 binary is refused, the swap ends, v0.3 upgrades *)
+Example ex_history :
+  map (fun t => (db_version (snd t)))
+      (transitions swap_is_finished_table (mkDb None [])
+         [EStart "v0.2"; ESwaps [SwState "State_SwapInSender_AwaitClaimPayment"]; EStart "v0.3";
+          ESwaps [SwState "State_ClaimedPreimage"]; EStart "v0.3"])
+  = [Some "v0.2"; Some "v0.2"; Some "v0.2"; Some "v0.2"; Some "v0.3"]%string.
+Proof. reflexivity. Qed.
